@@ -141,6 +141,11 @@ func fragSizes(g *Gen, n int, o *Out) {
 			bad[k-1] = []int{1} // equality against a slice is an error
 			check("C06", "any: an error at the last element, nothing decisive before", "any xs as x { x == -8 }", k, map[string]interface{}{"xs": bad}, "E")
 		}
+		// pointerstructure looks a map key up by walking MapKeys(): a quantifier over a map of k entries
+		// costs k^2, so the map dimension stops at 4100
+		if k > 4100 {
+			continue
+		}
 		check("C06", "any over a map: one entry matches", "any m as k, v { v == -7 }", k, d, anyWant)
 		check("C06", "all over a map: one entry fails", "all m as k, v { v != -7 }", k, d, map[bool]string{true: "T", false: "F"}[k == 0])
 		check("C06", "any over a map: keys", fmt.Sprintf("any m as k { k == k%06d }", k/2), k, d, anyWant)
